@@ -395,3 +395,37 @@ func TestC07Codec(t *testing.T) {
 		}
 	})
 }
+
+// TestC07PatchOperatorKeys is the witness of the open known finding KF-C07-patch-operator-map-keys: a map key that is
+// literally "$set" or "$delete" is taken for a partial-update operator by the exclusion matcher, so the value below it
+// is matched against the wrong spec level.
+func TestC07PatchOperatorKeys(t *testing.T) {
+	rec := stats.For("C07")
+	if hx.Replaying() {
+		t.Skip()
+	}
+	if i, _ := hx.ShardIndex(); i != 0 {
+		t.Skip()
+	}
+	ty := typeByName("vt.Sys57") // map<Leaf> fields
+	for _, n := range S.Types {
+		if n.Kind == "record" && len(n.Fields) > 0 && n.Fields[0].Type.Map != nil && n.Fields[0].Type.Map.Ref != nil && n.Fields[0].Type.Map.Ref.Name == "Leaf" {
+			ty = schema.RI(n.Ident)
+			break
+		}
+	}
+	for _, key := range []string{"$delete", "$set"} {
+		v := aval.Record().Set("req", aval.Map().Put(key, aval.Record().Set("s", aval.Str("x")))).Set("tail", aval.Int32(0))
+		c := exclCase{valCase: valCase{CorpusSeed: corpusSeed, Type: ty.String(), Format: "json", Value: v}, Spec: []string{"req/*/s"}, Wrap: "none", Mode: "encode"}
+		msg, _ := checkExclusion(rec, c)
+		if msg == "" {
+			continue // fixed: no finding to report
+		}
+		if kf.Open("KF-C07-patch-operator-map-keys") {
+			rec.Known("KF-C07-patch-operator-map-keys", kf.What("KF-C07-patch-operator-map-keys"), c)
+			continue
+		}
+		rec.Violation("patch-operator-key", msg, c)
+		t.Error(msg)
+	}
+}
